@@ -34,7 +34,7 @@ BUDGET = {"quick": 480, "thorough": 12000}
 SHRINK_SECONDS = {"quick": 30, "thorough": 120}
 WORKERS = 16
 RULE = (
-    "case = (small problem, callback kinds instrumented, target request, follow-up schedule); for the case every "
+    "case = (small problem, callback kinds instrumented, target request (single element or slice), follow-up schedule; explicit or implicit mode); for the case every "
     "injection point x exception type is enumerated (counted in coverage.info.max_injections; evaluations = cases). "
     "Non-trivial = the clean run has >= 20 callback invocations including a solver call or a multiplication and the "
     "target has total order >= 2. Distinct = distinct case hash."
